@@ -901,6 +901,31 @@ func c10child(p *Program, r *Report, rule string) {
 
 // ---- C20 ----------------------------------------------------------------------------------------------------------
 
+// paramAlwaysField: every call / go / defer site of the parameter's function passes a value that derives from field f.
+func (p *Program) paramAlwaysField(x *ssa.Parameter, f *types.Var) bool {
+	fn := x.Parent()
+	if fn == nil || f == nil {
+		return false
+	}
+	idx := -1
+	for k, prm := range fn.Params {
+		if prm == x {
+			idx = k
+		}
+	}
+	sites := p.CallersOf(fn)
+	if idx < 0 || len(sites) == 0 {
+		return false
+	}
+	for _, cs := range sites {
+		args := cs.Instr.Common().Args
+		if idx >= len(args) || !derivesFromField(args[idx], f) {
+			return false
+		}
+	}
+	return true
+}
+
 // cSpawns: the inventory of goroutines and timers the library starts. C20 needs it for the join obligations; C05 needs it
 // because the lock-discipline rules are decided for the known concurrent entry points (API calls plus these spawned bodies):
 // a new goroutine is a new concurrent actor whose accesses were not checked against the guarded-by table.
@@ -976,6 +1001,14 @@ func runC20(p *Program, r *Report) {
 				case "defer":
 					if e.Callee == "builtin close" && argKey(e, 0) == s.done {
 						return true, ""
+					}
+					// the done channel handed to the goroutine as an argument: every start of the body passes the field
+					if e.Callee == "builtin close" && e.Instr != nil {
+						if ci, ok := e.Instr.(ssa.CallInstruction); ok && len(ci.Common().Args) == 1 {
+							if prm, ok := ci.Common().Args[0].(*ssa.Parameter); ok && p.paramAlwaysField(prm, p.Field(s.done)) {
+								return true, ""
+							}
+						}
 					}
 					return false, "first defer is " + e.Callee
 				case "call", "select", "send", "recv", "return", "go":
